@@ -131,19 +131,23 @@ impl Msg {
     }
 }
 
-// revision of the election code under test, as selected by the check from the source tree (--rev <ab>:
-// a = vote_request adopts the request's term, b = response() counts a Vote/Ok only for the current term);
-// it is written into every case line (the model runs the same revision) and decides what "counted" means
-// for the stale-vote marker.  `main::probe_rev` determines the same two bits by behaviour.
+// revision of raft.rs under test, as selected by the check from the source tree (--rev <abc>:
+// a = vote_request adopts the request's term, b = response() counts a Vote/Ok only for the current term,
+// c = a leader counts only acknowledgements of its current term);
+// it is written into every case line (the model runs the same revision) and bit b decides what "counted" means
+// for the stale-vote marker.  `main::probe_rev` determines the same three bits by behaviour.
 static REV_VOTE_TERM: std::sync::atomic::AtomicBool = std::sync::atomic::AtomicBool::new(false);
 static REV_VOTE_MATCH: std::sync::atomic::AtomicBool = std::sync::atomic::AtomicBool::new(false);
-pub fn set_rev(vote_term: bool, vote_match: bool) {
+static REV_ACK_TERM: std::sync::atomic::AtomicBool = std::sync::atomic::AtomicBool::new(false);
+pub fn set_rev(vote_term: bool, vote_match: bool, ack_term: bool) {
     REV_VOTE_TERM.store(vote_term, std::sync::atomic::Ordering::Relaxed);
     REV_VOTE_MATCH.store(vote_match, std::sync::atomic::Ordering::Relaxed);
+    REV_ACK_TERM.store(ack_term, std::sync::atomic::Ordering::Relaxed);
 }
 pub fn rev_vote_term() -> bool { REV_VOTE_TERM.load(std::sync::atomic::Ordering::Relaxed) }
 pub fn rev_vote_match() -> bool { REV_VOTE_MATCH.load(std::sync::atomic::Ordering::Relaxed) }
-pub fn rev_str() -> String { format!("{}{}", rev_vote_term() as u8, rev_vote_match() as u8) }
+pub fn rev_ack_term() -> bool { REV_ACK_TERM.load(std::sync::atomic::Ordering::Relaxed) }
+pub fn rev_str() -> String { format!("{}{}{}", rev_vote_term() as u8, rev_vote_match() as u8, rev_ack_term() as u8) }
 
 pub const FACTOR_MS: u64 = 1000;
 pub const HB_MS: u64 = 1000;
@@ -178,6 +182,11 @@ pub struct Oracle {
     pub lcommits: Vec<(u64, Option<Ent>, u64)>,              // (index, entry, term of the committing leader)
     pub m_dv: Option<usize>, pub m_sv: Option<usize>, pub m_ad: Option<usize>, pub m_ot: Option<usize>, pub m_av: Option<usize>,
     pub m_nq: Option<usize>,                                // commit-without-quorum (RaftLog.v: nq_node)
+    pub m_sa: Option<usize>,                                // root cause of it: a leader counted a row that is not an acknowledgement
+                                                            // of its current term (RaftLog.v: stale_ack_counted_b)
+    pub fresh: BTreeSet<(u64, u64)>,                        // ghost of that marker: (leader i, peer j) = row j of i was written by commit()
+                                                            // from an Ok answer to a request of i's current term since i became Leader
+    pub acting: Option<(u64, Option<(u64, u64)>)>,          // node acting in the current step, counted Ok answer (peer, request term)
     pub voted_term: BTreeMap<u64, u64>,                     // voter -> highest term it answered Ok to a Vote request for
     pub failures: Vec<Failure>,
     pub seen: BTreeSet<&'static str>,
@@ -209,8 +218,8 @@ impl Oracle {
     pub fn flags(&self) -> String {
         let f = |k: &str| if self.seen.contains(k) { 0 } else { 1 };
         let m = |x: &Option<usize>| if x.is_some() { 1 } else { 0 };
-        format!("es={} agree={} lc={} dv={} sv={} ad={} ot={} av={} nq={}", f("two-leaders-in-term"), f("committed-entries-differ"),
-                f("new-leader-misses-committed-entry"), m(&self.m_dv), m(&self.m_sv), m(&self.m_ad), m(&self.m_ot), m(&self.m_av), m(&self.m_nq))
+        format!("es={} agree={} lc={} dv={} sv={} ad={} ot={} av={} nq={} sa={}", f("two-leaders-in-term"), f("committed-entries-differ"),
+                f("new-leader-misses-committed-entry"), m(&self.m_dv), m(&self.m_sv), m(&self.m_ad), m(&self.m_ot), m(&self.m_av), m(&self.m_nq), m(&self.m_sa))
     }
 }
 
@@ -278,10 +287,12 @@ impl World {
 
     fn apply_inner(&mut self, ev: &Ev, before: &[Snap]) {
         let step = self.orc.step;
+        self.orc.acting = None;
         match ev {
             Ev::Tick { i, elapsed, due } => {
                 let i = *i as usize;
                 if i >= self.nodes.len() { return; }
+                self.orc.acting = Some((i as u64, None));
                 let nd = &mut self.nodes[i];
                 let hb = nd.vx_hb_ms();
                 for j in 0..(if self.timed { 0 } else { self.n }) {
@@ -294,7 +305,9 @@ impl World {
             }
             Ev::Append { i, d } => {
                 let i = *i as usize;
-                if i >= self.nodes.len() || !self.nodes[i].vx_is_leader() { return; }
+                if i >= self.nodes.len() { return; }
+                self.orc.acting = Some((i as u64, None));
+                if !self.nodes[i].vx_is_leader() { return; }
                 let reqs = block_on(self.nodes[i].append(*d, None)).expect("append");
                 for r in reqs { self.net.push(Msg::Req(r)); }
             }
@@ -306,6 +319,7 @@ impl World {
                     Msg::Req(r) => {
                         let t = r.target as usize;
                         if t >= self.nodes.len() { return; }
+                        self.orc.acting = Some((t as u64, None));
                         let me = self.nodes[t].vx_index();
                         if !self.timed { self.nodes[t].vx_set_elapsed(me, *elapsed); }
                         let resp = block_on(self.nodes[t].request(&r));
@@ -338,6 +352,12 @@ impl World {
                     Msg::Resp(r, s) => {
                         let t = s.target as usize;
                         if t >= self.nodes.len() { return; }
+                        // an Ok answer to an Append/Heartbeat that the (Leader, .., OK) arm of response() passes to commit():
+                        // every such answer before the acknowledgement repair, only those of the current term after it
+                        let k = raft::vx_req_kind(&r);
+                        let counted = (k == 'A' || k == 'H') && raft::vx_res_is_ok(&s)
+                            && (!rev_ack_term() || raft::vx_req_term(&r) == before[t].term);
+                        self.orc.acting = Some((t as u64, if counted { Some((r.target, raft::vx_req_term(&r))) } else { None }));
                         // marker "stale vote COUNTED": a revision whose response() checks the request's term
                         // (rev_vote_match, from --rev) receives such an answer but does not count it
                         if before[t].candidate && raft::vx_req_kind(&r) == 'V' && raft::vx_res_is_ok(&s)
@@ -356,6 +376,24 @@ impl World {
 
     fn check(&mut self, before: &[Snap], after: &[Snap]) {
         let step = self.orc.step - 1;
+        // root-cause marker of commit-without-quorum (RaftLog.v: ackg_step): ghost `fresh` of the acting node, then
+        // "a node that is and stays Leader raised its commit index and counted a row that is not fresh"
+        if let Some((i, ack)) = self.orc.acting.take() {
+            let (b, a) = (&before[i as usize], &after[i as usize]);
+            if b.leader && a.leader {
+                if let Some((j, t)) = ack {
+                    if t == b.term { self.orc.fresh.insert((i, j)); } else { self.orc.fresh.remove(&(i, j)); }
+                }
+                if a.commit > b.commit {
+                    let rows = self.nodes[i as usize].vx_peers();
+                    let me = self.nodes[i as usize].vx_index();
+                    let stale = (0..rows.len() as u64).any(|j| j != me && rows[j as usize].0 >= a.commit && !self.orc.fresh.contains(&(i, j)));
+                    if stale && self.orc.m_sa.is_none() { self.orc.m_sa = Some(step); }
+                }
+            } else {
+                self.orc.fresh.retain(|(x, _)| *x != i);
+            }
+        }
         for i in 0..after.len() {
             let (b, a) = (&before[i], &after[i]);
             // self-support of a new candidacy
